@@ -31,12 +31,14 @@ theorem C20_no_stale (bits : List Bool) (s0 : Cfg) (hq : Quiet s0) (hf : Fresh s
   · simp_all [Quiet, WorkerWillClear]
   · simp_all [Quiet, LoopWillCheck]
 
-/-- **The update is not lost.**  Once the worker has finished, `_value` is the object of its last
-    accepted `set_value` (the initial value if none was accepted), whatever the schedule. -/
+/-- **The update is not lost.**  For a loop program that contains no controller write of this
+    characteristic: once the worker has finished, `_value` is the object of its last accepted
+    `set_value` (the initial value if none was accepted), whatever the schedule. -/
 theorem C20_update_not_lost (fix : Bool) (bits : List Bool) (s0 : Cfg) (h0 : s0.wpc = .idle)
+    (hn : NoWrite s0.lops)
     (hw : (run fix bits s0).wpc = .idle) (hu : (run fix bits s0).wups = []) :
     (run fix bits s0).value = lastValid s0.value s0.wups := by
-  have h := target_run fix bits s0
+  have h := target_run fix bits s0 hn
   have h1 : target s0 = lastValid s0.value s0.wups := by simp [target, h0]
   have h2 : target (run fix bits s0) = (run fix bits s0).value := by
     simp [target, hw, hu, lastValid]
@@ -59,82 +61,144 @@ theorem C20_read_after_quiet (s : Cfg) (rest : List LoopOp) (hq : Quiet s) (hf :
     after any schedule in which the worker has finished and the loop thread is between operations,
     the next `to_HAP` shows the worker's last accepted value. -/
 theorem C20_subsequent_read (bits : List Bool) (s0 : Cfg) (hq : Quiet s0) (hf : Fresh s0)
-    (rest : List LoopOp) :
+    (hn : NoWrite s0.lops) (rest : List LoopOp) :
     let s := run true bits s0
     Quiet s → s.wups = [] → s.lops = .toHAP :: rest →
     ∃ n, (run true (List.replicate n true) s).results
           = s.results ++ [.rep (lastValid s0.value s0.wups)] := by
   intro s hq' hu hl
   have hfresh := C20_no_stale bits s0 hq hf hq'
-  have hv : s.value = lastValid s0.value s0.wups := C20_update_not_lost true bits s0 hq.2 hq'.2 hu
+  have hv : s.value = lastValid s0.value s0.wups := C20_update_not_lost true bits s0 hq.2 hn hq'.2 hu
   obtain ⟨n, hn⟩ := C20_read_after_quiet s rest hq' hfresh hl
   exact ⟨n, by rw [← hv]; exact hn.2.2.1⟩
 
-/-- **C20_event, every schedule.**  Let connection `c` be subscribed before the updates begin and
-    never unsubscribed by the loop program (other connections may come and go).  Then whenever the
-    worker is between updates, the most recent item of `c`'s event pipeline (hand-off queue, else
-    the pending coalesced entry, else the last event written, else what `c` knew at the start)
-    carries the current value: every update that changed the value was handed to the loop after
-    the assignment, and nothing on the loop side dropped or reordered it. -/
-theorem C20_event (fix : Bool) (c : Conn) (base : Obj) (bits : List Bool) (s0 : Cfg)
+/-- **C20_event.**  The loop program may now contain, besides reads and flushes: repeated
+    subscriptions, unsubscriptions of other connections (each dropping that connection's queued
+    entry), timer expiries (also on an emptied queue), direct flushes, and controller writes of
+    the characteristic by `c` itself or by other connections.  Let connection `c` be subscribed in
+    the start configuration and never unsubscribed by the loop program.  Then for every schedule
+    that is `Serial` (no controller write overlaps a worker update or an undrained hand-off — see
+    `Serial`; schedules of programs without controller writes are all `Serial`), whenever the
+    worker is between updates the most recent item of `c`'s pipeline (hand-off queue, else the
+    queued coalesced entry, else what the controller last learned: last event written to it or its
+    own last acknowledged write) carries the current value. -/
+theorem C20_event (fix : Bool) (c : Conn) (bits : List Bool) (s0 : Cfg)
     (hq : Quiet s0) (hk : s0.topicKey = true) (hc : c ∈ s0.subs)
     (hun : ∀ op ∈ s0.lops, op ≠ LoopOp.unsub c)
-    (h0 : (latest c base s0).val = s0.value.val) :
-    let s := run fix bits s0
-    s.wpc = .idle → (latest c base s).val = s.value.val := by
-  intro s hw
-  have hinv : EvInv c base s0 := by
-    refine ⟨hk, hc, hun, by simp [hq.1], by simp [hq.1], ?_⟩
+    (hpt : s0.pending c ≠ none → s0.timer c = true)
+    (h0 : (latest c s0).val = s0.value.val)
+    (hs : Serial fix bits s0) :
+    (run fix bits s0).wpc = .idle → (latest c (run fix bits s0)).val = (run fix bits s0).value.val := by
+  intro hw
+  have hinv : EvInv c s0 := by
+    refine ⟨hk, hc, hun, by simp [hq.1], by simp [hq.1], hpt, ?_⟩
     rw [hq.2]; exact h0
-  have h := (evInv_run fix c base bits s0 hinv).2.2.2.2.2
-  rw [show (run fix bits s0).wpc = .idle from hw] at h
+  have h := (evInv_run fix c bits s0 hinv hs).2.2.2.2.2.2
+  rw [hw] at h
   exact h
 
-/-- At quiescence (worker done, hand-off queue drained, `c`'s pending entry flushed) the last
-    event written to `c` carries the final value — or no event was ever needed because the value
-    still equals what `c` knew at the start. -/
-theorem C20_event_quiescent (fix : Bool) (c : Conn) (base : Obj) (bits : List Bool) (s0 : Cfg)
+/-- **A queued entry always has a flush scheduled** (same hypotheses): whatever discards, repeated
+    subscriptions, writes and timer expiries happened, if `c` has a queued event then its
+    coalescing timer is armed — so the entry will be written when the timer fires. -/
+theorem C20_pending_has_timer (fix : Bool) (c : Conn) (bits : List Bool) (s0 : Cfg)
     (hq : Quiet s0) (hk : s0.topicKey = true) (hc : c ∈ s0.subs)
     (hun : ∀ op ∈ s0.lops, op ≠ LoopOp.unsub c)
-    (h0 : (latest c base s0).val = s0.value.val) :
-    let s := run fix bits s0
-    s.wpc = .idle → s.queue = [] → s.pending c = none →
-    (∃ d, (s.delivered c).getLast? = some d ∧ d.val = s.value.val) ∨
-    (s.delivered c = [] ∧ base.val = s.value.val) := by
-  intro s hw hqe hp
-  have h := C20_event fix c base bits s0 hq hk hc hun h0 hw
-  simp only [latest] at h
-  rw [show (run fix bits s0).queue = [] from hqe, show (run fix bits s0).pending c = none from hp] at h
+    (hpt : s0.pending c ≠ none → s0.timer c = true)
+    (h0 : (latest c s0).val = s0.value.val)
+    (hs : Serial fix bits s0) :
+    (run fix bits s0).pending c ≠ none → (run fix bits s0).timer c = true := by
+  have hinv : EvInv c s0 := by
+    refine ⟨hk, hc, hun, by simp [hq.1], by simp [hq.1], hpt, ?_⟩
+    rw [hq.2]; exact h0
+  exact (evInv_run fix c bits s0 hinv hs).2.2.2.2.2.1
+
+/-- **At quiescence the controller has the final value.**  Worker between updates, hand-off queue
+    drained, `c`'s timer not armed (every scheduled flush has fired): nothing is left queued for
+    `c`, and what it last learned (last event written to it, or its own acknowledged write if that
+    came later) is the current value. -/
+theorem C20_event_quiescent (fix : Bool) (c : Conn) (bits : List Bool) (s0 : Cfg)
+    (hq : Quiet s0) (hk : s0.topicKey = true) (hc : c ∈ s0.subs)
+    (hun : ∀ op ∈ s0.lops, op ≠ LoopOp.unsub c)
+    (hpt : s0.pending c ≠ none → s0.timer c = true)
+    (h0 : (latest c s0).val = s0.value.val)
+    (hs : Serial fix bits s0) :
+    (run fix bits s0).wpc = .idle → (run fix bits s0).queue = [] → (run fix bits s0).timer c = false →
+    (run fix bits s0).pending c = none ∧
+    ((run fix bits s0).knows c).val = (run fix bits s0).value.val := by
+  intro hw hqe ht
+  have hp : (run fix bits s0).pending c = none := by
+    have := C20_pending_has_timer fix c bits s0 hq hk hc hun hpt h0 hs
+    cases hpc : (run fix bits s0).pending c with
+    | none => rfl
+    | some d =>
+      have h1 := this (by rw [hpc]; simp)
+      rw [ht] at h1; exact absurd h1 (by simp)
+  have h := C20_event fix c bits s0 hq hk hc hun hpt h0 hs hw
+  simp only [latest, hqe, hp, List.getLast?_nil] at h
+  exact ⟨hp, h⟩
+
+/-- The same in terms of what is observable on the wire: if the loop program contains no write by
+    `c` itself (other connections may write) and nothing had been written to `c` at the start, then
+    at quiescence the last EVENT written to `c` carries the final value — or none was written and
+    the value equals what `c` knew at the start. -/
+theorem C20_event_quiescent_delivered (fix : Bool) (c : Conn) (bits : List Bool) (s0 : Cfg)
+    (hq : Quiet s0) (hk : s0.topicKey = true) (hc : c ∈ s0.subs)
+    (hun : ∀ op ∈ s0.lops, op ≠ LoopOp.unsub c)
+    (hpt : s0.pending c ≠ none → s0.timer c = true)
+    (h0 : (latest c s0).val = s0.value.val)
+    (hs : Serial fix bits s0)
+    (hnw : ∀ op ∈ s0.lops, ∀ v, op ≠ LoopOp.write c v) (hd0 : s0.delivered c = []) :
+    (run fix bits s0).wpc = .idle → (run fix bits s0).queue = [] → (run fix bits s0).timer c = false →
+    (∃ d, ((run fix bits s0).delivered c).getLast? = some d ∧ d.val = (run fix bits s0).value.val) ∨
+    ((run fix bits s0).delivered c = [] ∧ (s0.knows c).val = (run fix bits s0).value.val) := by
+  intro hw hqe ht
+  have h := (C20_event_quiescent fix c bits s0 hq hk hc hun hpt h0 hs hw hqe ht).2
+  have hk0 : KnowsInv c (s0.knows c) s0 := by simp [KnowsInv, hd0]
+  have hkn := knows_run fix c (s0.knows c) bits s0 hnw hk0
+  unfold KnowsInv at hkn
+  rw [hkn] at h
   cases hd : ((run fix bits s0).delivered c).getLast? with
   | none =>
     right
     rw [hd] at h
-    exact ⟨List.getLast?_eq_none_iff.mp hd, h⟩
+    exact ⟨List.getLast?_eq_none_iff.mp hd, by simpa using h⟩
   | some d =>
     left
     rw [hd] at h
-    exact ⟨d, rfl, h⟩
+    exact ⟨d, rfl, by simpa using h⟩
 
-/-- **Exactly the changing updates reach the loop, in order, every schedule.**  Under the
-    hypotheses of C20_event (some connection `c` is and stays subscribed, so the topic exists
-    whenever `publish` tests it): once the worker has finished, the sequence of objects it handed
-    to the loop with `call_soon_threadsafe` is precisely the sequence of accepted updates that
-    changed the value — none lost, none duplicated, none reordered — each enqueued after its own
-    assignment (the hand-off step follows the assignment step in the worker's program). -/
-theorem C20_handoff_exact (fix : Bool) (c : Conn) (base : Obj) (bits : List Bool) (s0 : Cfg)
+/-- **Exactly the changing updates reach the loop, in order, every schedule** (loop programs
+    without controller writes).  Under the hypotheses of C20_event (some connection `c` is and
+    stays subscribed, so the topic exists whenever `publish` tests it): once the worker has
+    finished, the sequence of objects it handed to the loop with `call_soon_threadsafe` is
+    precisely the sequence of accepted updates that changed the value — none lost, none
+    duplicated, none reordered — each enqueued after its own assignment. -/
+theorem C20_handoff_exact (fix : Bool) (c : Conn) (bits : List Bool) (s0 : Cfg)
     (hq : Quiet s0) (hk : s0.topicKey = true) (hc : c ∈ s0.subs)
     (hun : ∀ op ∈ s0.lops, op ≠ LoopOp.unsub c)
-    (h0 : (latest c base s0).val = s0.value.val)
+    (hpt : s0.pending c ≠ none → s0.timer c = true)
+    (h0 : (latest c s0).val = s0.value.val) (hn : NoWrite s0.lops)
     (hw : (run fix bits s0).wpc = .idle) (hu : (run fix bits s0).wups = []) :
     (run fix bits s0).enq = s0.enq ++ changes s0.value s0.wups := by
-  have hinv : EvInv c base s0 := by
-    refine ⟨hk, hc, hun, by simp [hq.1], by simp [hq.1], ?_⟩
+  have hinv : EvInv c s0 := by
+    refine ⟨hk, hc, hun, by simp [hq.1], by simp [hq.1], hpt, ?_⟩
     rw [hq.2]; exact h0
-  have h := handoff_run fix c base bits s0 hinv
+  have h := handoff_run fix c bits s0 hinv hn
   have e1 : owed (run fix bits s0) = [] := by simp [owed, hw, hu, changes]
   have e2 : owed s0 = changes s0.value s0.wups := by simp [owed, hq.2]
   rw [e1, e2, List.append_nil] at h
   exact h
+
+/-- Why `Serial` is assumed (the known finding of C12, not judged by C20's oracle): a controller
+    write that overtakes a worker update's undrained hand-off leaves the subscriber with the OLDER
+    value as its latest event.  Worker: 20 → 21, hand-off enqueued; connection 8 writes 22 (queued
+    for subscriber 7); the hand-off is drained afterwards and replaces it; the timer fires. -/
+theorem C20_overlapping_write_counterexample :
+    let s := run true [false, false, false, false, false, false, true, true, true, true, true]
+      (init ⟨0, 20⟩ [.write 8 ⟨2, 22⟩, .drain, .fire 7] [⟨⟨1, 21⟩, true⟩] [7])
+    Quiet s ∧ s.queue = [] ∧ s.timer 7 = false ∧ s.value = ⟨2, 22⟩ ∧ s.delivered 7 = [⟨1, 21⟩] ∧
+    s.knows 7 = ⟨1, 21⟩ := by
+  decide
 
 /-! ### The code as shipped (no re-check): the window is real -/
 
@@ -176,17 +240,44 @@ example :
 
 /-- Hypotheses of C20_no_stale / C20_event hold of a concrete start configuration, and a concrete
     interleaved run delivers the event: subscribed before, update during a `to_HAP`, drain, flush. -/
-def evStart : Cfg := init ⟨0, 20⟩ [.toHAP, .drain, .flush 7] [⟨⟨1, 21⟩, true⟩] [7]
+def evStart : Cfg := init ⟨0, 20⟩ [.toHAP, .drain, .fire 7] [⟨⟨1, 21⟩, true⟩] [7]
 def evSchedule : List Bool :=
   [true, true, false, false, true, false, false, true, false, false, true, true, true, true, true, true]
 
 example : Quiet evStart ∧ Fresh evStart ∧ evStart.topicKey = true ∧ 7 ∈ evStart.subs ∧
-    (∀ op ∈ evStart.lops, op ≠ LoopOp.unsub 7) ∧ (latest 7 ⟨0, 20⟩ evStart).val = evStart.value.val := by
+    (∀ op ∈ evStart.lops, op ≠ LoopOp.unsub 7) ∧ (latest 7 evStart).val = evStart.value.val := by
+  decide
+
+example : NoWrite evStart.lops := by
+  intro op ho w v
+  simp [evStart, init] at ho
+  rcases ho with rfl | rfl | rfl <;> simp
+
+/-- …and of a start configuration whose program contains a controller write by the subscriber,
+    an unsubscription of another connection, a repeated subscription and timer expiries; the
+    schedule below is `Serial` and ends with the subscriber knowing the final value. -/
+def mixStart : Cfg :=
+  init ⟨0, 20⟩ [.drain, .write 7 ⟨2, 22⟩, .fire 7, .sub 7, .unsub 8, .drain, .fire 7]
+    [⟨⟨1, 21⟩, true⟩, ⟨⟨3, 23⟩, true⟩] [7, 8]
+def mixSchedule : List Bool :=
+  [false, false, false, false, false, false,        -- worker: 20 → 21, handed over
+   true, true, true, true, true, true, true,         -- loop: drain (21 queued, timer armed), write 22 by 7, fire, sub, unsub 8
+   false, false, false, false, false, false,         -- worker: 22 → 23, handed over
+   true, true, true, true]                           -- loop: drain, fire
+
+example : Serial true mixSchedule mixStart := by decide
+
+example :
+    Quiet (run true mixSchedule mixStart) ∧ (run true mixSchedule mixStart).queue = [] ∧
+    (run true mixSchedule mixStart).timer 7 = false ∧
+    (run true mixSchedule mixStart).value = ⟨3, 23⟩ ∧
+    (run true mixSchedule mixStart).delivered 7 = [⟨3, 23⟩] ∧
+    (run true mixSchedule mixStart).knows 7 = ⟨3, 23⟩ := by
   decide
 
 example :
     Quiet (run true evSchedule evStart) ∧ (run true evSchedule evStart).queue = [] ∧
-    (run true evSchedule evStart).pending 7 = none ∧
+    (run true evSchedule evStart).pending 7 = none ∧ (run true evSchedule evStart).timer 7 = false ∧
     (run true evSchedule evStart).delivered 7 = [⟨1, 21⟩] ∧ Fresh (run true evSchedule evStart) ∧
     (run true evSchedule evStart).enq = [⟨1, 21⟩] ∧ changes evStart.value evStart.wups = [⟨1, 21⟩] := by
   decide
